@@ -258,6 +258,45 @@ def r6_step_count(ctx):
 SOLN = "cardillo/solver/solution.py"
 
 
+def file_name_injective(ctx, rule="C20.R12"):
+    """'Saving and loading a solution preserves every field' for every name the user chooses: two different names must be two different files.
+    A normalisation that REPLACES what follows the last dot is not injective - the later save overwrites the earlier one and load returns
+    another run (other grid, other row count)."""
+    rep = ctx.rep
+    mod = ctx.repo.module(SOLN)
+    defs = {q: f for q, f in mod.defs().items() if isinstance(f, ast.FunctionDef)}
+    LOSSY = {"with_suffix", "splitext", "with_name", "with_stem", "rsplit", "rpartition"}
+    n = 0
+    for q, fn in defs.items():
+        if not any(k in fn.name for k in ("load", "save")):
+            continue
+        for op in [w for w in ast.walk(fn) if isinstance(w, ast.Call) and (dotted(w.func) or "").split(".")[-1] == "open" and w.args]:
+            n += 1
+            C = f"{SOLN}:{q}"
+            work, seen, lossy = [op.args[0]], set(), None
+            while work and lossy is None:
+                e = work.pop()
+                for x in ast.walk(e):
+                    if isinstance(x, ast.Call):
+                        nm = (dotted(x.func) or "").split(".")[-1] or (x.func.attr if isinstance(x.func, ast.Attribute) else "")
+                        if isinstance(x.func, ast.Attribute) and x.func.attr in LOSSY or nm in LOSSY:
+                            lossy = x
+                            break
+                        if nm in defs and nm not in seen:
+                            seen.add(nm)
+                            work += [r.value for r in ast.walk(defs[nm]) if isinstance(r, ast.Return) and r.value is not None]
+                    elif isinstance(x, ast.Attribute) and x.attr in ("stem",):
+                        lossy = x
+                        break
+            if lossy is not None:
+                rep.bad(rule, C, op, f"the file opened is `{norm_src(op.args[0])[:50]}`, which goes through `{norm_src(lossy)[:50]}`: everything after the last dot of the given name is replaced, so names "
+                        "that differ only there (a step-size study: sol_dt0.01, sol_dt0.02) share one file and load_solution returns another run's grid and rows", f"{SOLN}:{op.lineno}")
+            else:
+                rep.ok(rule, C, f"opens `{norm_src(op.args[0])[:40]}` (the given name, nothing cut)")
+    if n < 2:
+        raise AnalysisError(f"{SOLN}: fewer than 2 open(...) calls in the save / load helpers")
+
+
 def io_not_memoised(ctx):
     """"Saving and loading a solution preserves every field": load_solution returns what is in the file NOW.  A memoised load (keyed by the
     file name) hands back the solution that was in the file when it was first read - after a second save under the same name every field,
@@ -448,6 +487,8 @@ def run(ctx):
     rep.rule("C20.R4", "Solution fields are array expressions of the row lists", 40)
     rep.rule("C20.R5", "ScipyIVP / ScipyDAE field shapes", 8)
     rep.rule("C20.R6", "the step loop's iterable is a function of the initial time, the final time and the step", 4)
+    rep.rule("C20.R12", "save_solution / load_solution open the file name they are given (possibly with a suffix APPENDED): no part of the name is replaced or cut (Path.with_suffix, splitext, .stem map `run_dt0.01` and `run_dt0.02` to one file)", 2)
+    file_name_injective(ctx)
     rep.rule("C20.R11", "saving and loading go to the file on every call (no memoisation by file name)", 2)
     io_not_memoised(ctx)
     rep.rule("C20.R10", "the solution iterator selects each record along the leading (instant) axis", 1)
@@ -689,4 +730,9 @@ MUTANTS += [
 MUTANTS += [
     dict(id="c20-r6-while", canary=True, what="[seeded by sub-agent] DualStormerVerlet steps `while self.tn < self.t1` (accumulated float time decides the number of steps)", file='cardillo/solver/dual_stormer_verlet.py',
          old='        self.pbar = tqdm(time_grid(self.t0, self.t1, self.dt)[:-1])\n        for _ in self.pbar:\n            self._step()\n', new='        self.pbar = tqdm(total=len(time_grid(self.tn, self.t1, self.dt)) - 1)\n        while self.tn < self.t1:\n            self._step()\n            self.pbar.update()\n        self.pbar.close()\n', expect="C20.R6"),
+]
+
+MUTANTS += [
+    dict(id="c20-r12-seed", canary=True, what="[seeded by sub-agent] save_solution normalises the file name with Path(filename).with_suffix('.pkl') (replaces what follows the last dot)", file=SOLN,
+         old='    with open(filename, mode="wb") as f:\n', new='    from pathlib import Path\n    with open(Path(filename).with_suffix(".pkl"), mode="wb") as f:\n', expect="C20.R12"),
 ]
